@@ -7,11 +7,15 @@ import (
 	"go/constant"
 	"go/token"
 	"go/types"
+	"os"
 	"strings"
 	"sync"
+	"time"
 
 	"golang.org/x/tools/go/ssa"
 )
+
+var debugQueries = os.Getenv("VERIF_DEBUG_Q") != ""
 
 type fnInfo struct {
 	idx  map[ssa.Value]int
@@ -112,6 +116,10 @@ type Worker struct {
 	jobModel  map[string]uint64
 	pathReach []string
 	armBudget int64
+	mergeCheck bool
+	softGoal  bool // the next feasibility queries are branch/merge pre-checks (not obligations)
+	nq        int
+	varsMemo  map[int32]map[int32]bool
 	mstats    struct{ ok, fail int64 }
 }
 
@@ -211,8 +219,106 @@ func (w *Worker) globalPtr(g *ssa.Global) *Value {
 
 // ---------------- decisions ----------------
 
+// tryRepair: for a goal of the form lhs == rhs that the current model falsifies, try to make it true by assigning
+// the variables of one side (when that side is built from concat/extract/zext of variables) to the value of the
+// other side, and re-validate the whole path condition by evaluation. This is a model-search shortcut (e.g. a
+// checksum field made of free input bytes); it never claims unsat.
+func (w *Worker) tryRepair(c *Term) (map[string]uint64, bool) {
+	if !w.modelOK || c.op != OEq || c.args[0].kind != KBV {
+		return nil, false
+	}
+	for side := 0; side < 2; side++ {
+		src, dst := c.args[side], c.args[1-side]
+		m := make(map[string]uint64, len(w.model)+8)
+		for k, v := range w.model {
+			m[k] = v
+		}
+		memo := map[int32]uint64{}
+		val := w.tt.evalNamed(src, m, memo)
+		if !assignTerm(dst, val, m) {
+			continue
+		}
+		memo = map[int32]uint64{}
+		if w.tt.evalNamed(c, m, memo) != 1 {
+			continue
+		}
+		ok := true
+		for _, p := range w.pc {
+			if w.tt.evalNamed(p, m, memo) != 1 {
+				ok = false
+				break
+			}
+		}
+		if ok {
+			return m, true
+		}
+	}
+	return nil, false
+}
+
+// assignTerm sets variables so that t evaluates to val (only through concat / zext / extract-of-var / var)
+func assignTerm(t *Term, val uint64, m map[string]uint64) bool {
+	switch t.op {
+	case OVar:
+		m[t.name] = val & mask(int(t.w))
+		return true
+	case OConst:
+		return t.val == val
+	case OConcat:
+		lw := uint(t.args[1].w)
+		return assignTerm(t.args[1], val&mask(int(lw)), m) && assignTerm(t.args[0], val>>lw, m)
+	case OZext:
+		if val&^mask(int(t.args[0].w)) != 0 {
+			return false
+		}
+		return assignTerm(t.args[0], val, m)
+	case OExtract:
+		if v := t.args[0]; v.op == OVar {
+			lo := uint(t.p2)
+			old := m[v.name]
+			old &^= mask(int(t.w)) << lo
+			m[v.name] = old | (val&mask(int(t.w)))<<lo
+			return true
+		}
+	}
+	return false
+}
+
 func (w *Worker) feasible(c *Term, wantModel bool) (Result, map[string]uint64) {
+	if !w.modelOK && c.size > 20000 {
+		// a large goal (e.g. a checksum over symbolic bytes): first get a model of the path condition alone, then
+		// try evaluation / repair before handing the big term to the solver
+		if r, m := w.solver.Check(w.pc, nil, true); r == Sat && m != nil {
+			w.model, w.modelOK = m, true
+		}
+	}
+	if cur, ok := w.evalUnderModel(c); ok && cur {
+		return Sat, w.model
+	}
+	if m, ok := w.tryRepair(c); ok {
+		w.eng.mu.Lock()
+		w.eng.res.Repairs++
+		w.eng.mu.Unlock()
+		return Sat, m
+	}
+	if debugQueries {
+		w.nq++
+		if w.nq%200 == 0 {
+			fmt.Fprintf(os.Stderr, "[q%d] pc=%d mergeLvl=%d steps=%d at %s :: %s\n", w.nq, len(w.pc), w.mergeLvl, w.steps, w.where(), c.String())
+		}
+	}
+	if w.softGoal && c.size > 20000 {
+		// feasibility of a huge goal (checksum-like): give up quickly; unknown keeps both sides, which is sound
+		w.solver.nextTO = 1500
+	} else if w.mergeCheck {
+		// merge pre-check: unknown means "merge anyway" (sound), so do not wait long
+		w.solver.nextTO = 2000
+	}
+	t0 := time.Now()
 	res, m := w.solver.Check(w.pc, c, wantModel)
+	if debugQueries && time.Since(t0) > 500*time.Millisecond {
+		fmt.Fprintf(os.Stderr, "[slow %v %s] size=%d pc=%d modelOK=%v soft=%v at %s\n", time.Since(t0), res, c.size, len(w.pc), w.modelOK, w.softGoal, w.where())
+	}
 	return res, m
 }
 
@@ -256,6 +362,8 @@ func (w *Worker) branch(c *Term) bool {
 	nc := w.tt.Not(c)
 	var feasT, feasF bool
 	var mT, mF map[string]uint64
+	w.softGoal = true
+	defer func() { w.softGoal = false }()
 	if cur, ok := w.evalUnderModel(c); ok {
 		if cur {
 			feasT, mT = true, w.model
